@@ -43,6 +43,7 @@ struct Intent {
   std::string form;        // pattern name from the form table, e.g. "R,M"
   int size = 0;            // size parameter of the form (8/16/32/64) or 0
   std::string cls;         // instruction class (alu, mov, shift, sse, avx, bmi, branch, ...)
+  bool kw_imm = false;     // the size keyword is written in front of the immediate instead of the memory operand ("add [rbx], dword 5")
 };
 
 static inline WOpd wgpr(int reg, int width, bool high8 = false) { WOpd o; o.k = K_GPR; o.reg = reg; o.width = width; o.high8 = high8; return o; }
@@ -95,6 +96,8 @@ static inline std::string text(const Intent &it) {
     s += k ? ", " : " ";
     if (k == 0 && it.ops[k].k == K_REL && it.brkw) s += it.brkw == 1 ? "short " : "long ";
     if (k == 0 && it.far) s += "far ";
+    if (it.kw_imm && it.ops[k].k == K_MEM) { WMem m = it.ops[k].m; m.kw = 0; s += memtext(m); continue; }
+    if (it.kw_imm && it.ops[k].k == K_IMM) { int kw = 0; for (auto &o : it.ops) if (o.k == K_MEM) kw = o.m.kw; s += kw == 8 ? "byte " : kw == 16 ? "word " : kw == 32 ? "dword " : kw == 64 ? "qword " : ""; }
     s += opdtext(it.ops[k]);
   }
   return s;
@@ -140,6 +143,7 @@ static inline x86::Opd canon_opd(const WOpd &w, const Opts &o) {
 // All canonical instructions a correct assembler may emit for the intent.
 static inline std::vector<x86::Insn> expect(const Intent &it, const Opts &o) {
   x86::Insn I; I.ok = true; I.op = canon_op(it.mn);
+  if (it.mn == "movd") for (auto &w : it.ops) if (w.k == K_GPR && w.width == 64) I.op = "movq";   // movd with a 64-bit register is the REX.W form, which is movq
   if (it.far) I.op += "far";
   for (auto &w : it.ops) I.ops.push_back(canon_opd(w, o));
   // shift by the literal 1 and by imm8 are the same operation
@@ -201,7 +205,7 @@ static const Form FORMS[] = {
   {"mulx", "R,R,R", "dq", KW_NONE, "bmi"}, {"mulx", "R,R,M", "dq", KW_OPT, "bmi"},
   {"rorx", "R,R,I8", "dq", KW_NONE, "bmi"}, {"rorx", "R,M,I8", "dq", KW_OPT, "bmi"},
   // ---- MMX / SSE ----
-  {"movd", "X,R32", "-", KW_NONE, "sse"}, {"movd", "X,M32", "-", KW_OPT, "sse"}, {"movd", "R32,X", "-", KW_NONE, "sse"}, {"movd", "M32,X", "-", KW_OPT, "sse"},
+  {"movd", "X,R32", "-", KW_NONE, "sse"}, {"movd", "X,M32", "-", KW_OPT, "sse"}, {"movd", "R32,X", "-", KW_NONE, "sse"}, {"movd", "X,R64", "-", KW_NONE, "sse"}, {"movd", "R64,X", "-", KW_NONE, "sse"}, {"movd", "M32,X", "-", KW_OPT, "sse"},
   {"movq", "X,R64", "-", KW_NONE, "sse"}, {"movq", "R64,X", "-", KW_NONE, "sse"}, {"movq", "X,X", "-", KW_NONE, "sse"}, {"movq", "X,M64", "-", KW_OPT, "sse"}, {"movq", "M64,X", "-", KW_OPT, "sse"},
   {"movntq", "M64,MM", "-", KW_OPT, "mmx"}, {"movntdqa", "X,M128", "-", KW_NONE, "sse"},
   {PMMX " pand", "MM,MM", "-", KW_NONE, "mmx"}, {PMMX " pand", "MM,M64", "-", KW_NONE, "mmx"},
